@@ -44,6 +44,13 @@ Interpretation choices (soundness first):
   "several formats in sequence" is exercised through the collection's own To* methods and through collections
   with different metadata key sets going through one CSV exporter.  Goroutines filtering / exporting one
   collection run under the Go race detector (driver built with -race); their results must be the sequential ones.
+* Files (ExportFile.tla): Exporter.ExportToFile, ChunkCollection.ExportToFile, BatchExporter.ExportToFiles and a
+  StreamExporter over an *os.File the caller created, with the destination initially absent, empty, or holding an
+  earlier export that is longer (the collection as indented JSON, three times) or shorter (the JSON export of an
+  empty collection), and histories of up to three exports to the same path (whole collection / filtered selection,
+  any order, any formats).  After every call each file the call wrote must hold exactly the bytes of the in-memory
+  export of the same call and parse back to that call's chunks.  A batch file of an earlier, larger export that
+  the current call does not write is not the call's business (stale extra batch files are not asserted).
 * Batch size <= 0 (no progress) belongs to C02, not here.  Invalid UTF-8 is not generated (JSON cannot carry it).
 * Every ChunkCollection filter is asserted by its documented meaning (listed in Export.tla above Sat).
   Search(k) "containing a keyword (case-insensitive)" is read as: the lower-cased text contains the lower-cased
@@ -78,7 +85,9 @@ EVIDENCE = dict(
          "BatchExporter / StreamExporter on three collections with different key sets) x 3 exporter configurations from "
          "ExportObjMC, each run on one set of objects and checked call by call against the fresh-object expectation and a "
          "deep receiver snapshot; random longer histories validated by ExportObjTrace.tla; goroutines on one collection "
-         "under the race detector.",
+         "under the race detector.  Files: every history of <= 3 file exports (4 entry points x whole / filtered x formats) x 4 "
+         "initial states of the destination from ExportFileMC (quick: every 2-export history continued by a seeded third of the calls), file bytes "
+         "compared with the in-memory export of the same call and parsed back; random longer histories by ExportFileTrace.tla.",
     assumptions=["field names and column layout of the pinned export schema are the contract (see NOTES)",
                  "list cells in CSV/TSV are only bound when no element contains a comma",
                  "the harness's RFC 4180 reader is trusted after agreeing with Csv.tla on every enumerated input",
@@ -101,7 +110,7 @@ def run(ctx):
     # R1: the RFC 4180 lemma Read(Write(rows)) = rows, negative control: a writer that
     # does not double embedded quotes must be refuted
     # the small independent TLC runs go side by side with the large one (quick tier: wall time is JVM starts)
-    pool = ThreadPoolExecutor(max_workers=9)
+    pool = ThreadPoolExecutor(max_workers=11)
     side = [pool.submit(ctx.tlc, "CsvMC", "Csv_mc_lemma_quick.cfg" if q else "Csv_mc_lemma.cfg", workers=4, timeout=1800, count=False),
             pool.submit(ctx.tlc, "CsvMC", "Csv_mc_bad.cfg", workers=2, expect_violation=True, extra=["-noGenerateSpecTE"]),
             pool.submit(ctx.tlc, "ExportMC", "Export_mc_impl.cfg", workers=2, expect_violation=True, extra=["-noGenerateSpecTE"]),
@@ -111,6 +120,8 @@ def run(ctx):
            for cfg in (["ExportObj_mc_quick.cfg"] if q else ["ExportObj_mc_quick.cfg", "ExportObj_mc_full.cfg"])]
     side += [pool.submit(ctx.tlc, "ExportObjMC", "ExportObj_mc_impl_inplace.cfg", workers=2, expect_violation=True, extra=["-noGenerateSpecTE"]),
              pool.submit(ctx.tlc, "ExportObjMC", "ExportObj_mc_impl_cache.cfg", workers=2, expect_violation=True, extra=["-noGenerateSpecTE"])]
+    fobj = pool.submit(ctx.tlc, "ExportFileMC", "ExportFile_mc_quick.cfg", workers=4, collect=True, timeout=1800, count=False)
+    side.append(pool.submit(ctx.tlc, "ExportFileMC", "ExportFile_mc_impl.cfg", workers=2, expect_violation=True, extra=["-noGenerateSpecTE"]))
     big = pool.submit(ctx.tlc, "ExportMC", "Export_mc_quick.cfg" if q else "Export_mc_thorough.cfg", workers=8,
                       collect=True, timeout=3000, jvm="-Xmx12g" if not q else None, count=False)
     # the harness's CSV reader must agree with the automaton on every enumerated input
@@ -131,7 +142,8 @@ def run(ctx):
     done = [f.result() for f in side]          # re-raises a MachineryError of a side run
     pool.shutdown()
     objruns = [f.result() for f in obj]
-    for r in [exp, done[0]] + objruns:         # counted here, in one thread (the controls are not counted)
+    filerun = fobj.result()
+    for r in [exp, done[0], filerun] + objruns:         # counted here, in one thread (the controls are not counted)
         ctx.states += r["distinct"]
         ctx.transitions += r["generated"]
     cases = dedupe(exp["cases"])
@@ -194,6 +206,7 @@ def run(ctx):
         ev = ev[nxt[0]:] if nxt else []
     ctx.sample({"trace_events": sum(len(r.get("events", [])) for r in rec)})
     objects(ctx, q, objruns)
+    files(ctx, q, filerun)
     ctx.notes.append(NOTES)
 
 
@@ -252,6 +265,54 @@ def objects(ctx, q, objruns):
         ctx.violation("C14:race", "the Go race detector reported a data race between goroutines filtering / exporting one "
                       "ChunkCollection: %s" % " | ".join(where), {"race_report": txt[:6000]})
     ctx.extra["concurrent_runs_under_race_detector"] = len(cres)
+
+
+def files(ctx, q, run):
+    """File-writing entry points with the state of the destination as a variable (ExportFile.tla)."""
+    lines = run["cases"]
+    hist = [x for x in lines if x.get("kind") == "fhistory"]
+    if not hist or not any(x.get("kind") == "fcallspec" for x in lines) or not any(x.get("kind") == "fcoll" for x in lines):
+        raise vlib.MachineryError("ExportFileMC emitted no histories / call specifications")
+    if q:
+        # every history of one and two exports (as prefixes), each continued by a seeded third of the calls
+        import random
+        ncalls = max(max(h["calls"]) for h in hist)
+        third = set(random.Random(ctx.seed).sample(range(1, ncalls + 1), max(1, ncalls // 3)))
+        hist = [h for h in hist if h["calls"][-1] in third]
+        lines = [x for x in lines if x.get("kind") != "fhistory"] + hist
+    res = ctx.run_driver(["c14", "files"], lines)
+    tab = [r for r in res if r.get("clause") == "table"]
+    if tab:
+        raise vlib.MachineryError("the case table of Export.tla disagrees with the Unicode data of the harness: %s" % tab[0].get("what"))
+    absorb(ctx, [r for r in res if r.get("evals")])
+    ctx.extra["file_histories"] = len(hist)
+    spec = dict((x["call"], x) for x in lines if x.get("kind") == "fcallspec")
+    h = hist[len(hist) // 2]
+    ctx.sample({"exports_to_one_path": ["%s(%s, %d predicates)" % (spec[c]["op"], spec[c]["fmt"], len(spec[c]["preds"])) for c in h["calls"]],
+                "destination_initially": h["init"]})
+    nreq, nseg, ln = (2, 15, 5) if q else (10, 60, 6)
+    rec = ctx.run_driver(["c14", "filerecord"], [{"n": nseg, "len": ln} for _ in range(nreq)])
+    for r in rec:
+        ev = r.get("events", [])
+        if len(ev) < 3:
+            raise vlib.MachineryError("file record driver logged no events")
+        ctx.evaluations += sum(1 for e in ev if e["event"] == "Call")
+        tv = ctx.validate_trace("ExportFileTrace", "ExportFileTrace.cfg", ev)
+        if tv["accepted"]:
+            ctx.traces_validated += sum(1 for e in ev if e["event"] == "Reset")
+            continue
+        line = tv["depth"] + 1          # line 1 (Open) is consumed by the initial state
+        if line < 2 or line > len(ev):
+            raise vlib.MachineryError("file trace validation stopped at an impossible depth %d" % tv["depth"])
+        e = ev[line - 1]
+        start = max(i for i in range(line) if ev[i]["event"] == "Reset")
+        ctx.traces_validated += sum(1 for x in ev[:start] if x["event"] == "Reset")
+        before = ["%s(%s)" % (x.get("op"), x.get("fmt")) for x in ev[start + 1:line - 1]]
+        ctx.violation("C14:trace-file:%s" % e.get("op"),
+                      "ExportFileTrace rejects %s(%s) with the destination initially %s after %s: %s" % (
+                          e.get("op"), e.get("fmt"), ev[start].get("init"), before,
+                          e.get("err") or vlib.json.dumps(e.get("outs"))),
+                      {"open": ev[0], "trace_segment": ev[start:line], "rejected_line": line})
 
 
 def replay(ctx, rp):
